@@ -648,6 +648,53 @@ func (e *engine) settle() {
 		}
 		ns.mu.Unlock()
 	}
+	e.fmu.Lock()
+	clean := len(e.res.Fails) == 0
+	e.fmu.Unlock()
+	if clean {
+		e.afterRestart(want, ref)
+		if uint64(want.PostApplyChecksum) == emptyChk {
+			for _, ns := range e.nodes {
+				e.checkDropped(ns, "restarted")
+			}
+		}
+	}
+}
+
+// afterRestart: every node is stopped and started again on its data directory; it must come back at
+// the position it had, with the same bytes (a node that was brought back onto the primary's history by
+// a snapshot must not fall off it again).
+func (e *engine) afterRestart(want ltx.Pos, ref any) {
+	for _, name := range []string{"n3", "n2", "n1"} {
+		ns := e.nodes[name]
+		ns.mu.Lock()
+		if e.cl.Lease.Holder() == ns.cn.URL {
+			e.cl.Lease.AllowOnly()
+		}
+		e.cl.Stop(name)
+		err := e.startNode(name)
+		ns.mu.Unlock()
+		e.eval(3)
+		if err != nil {
+			e.fail("C05", "C05.restart-succeeds", "restart-after-convergence-fails/"+name, map[string]any{"error": err.Error()})
+			continue
+		}
+		db := ns.cn.Store.DB(e.name)
+		if db == nil || db.Pos() != want {
+			got := "none"
+			if db != nil {
+				got = db.Pos().String()
+			}
+			e.fail("C06", "C06.ends-identical-to-primary", "position-after-restart/"+name, map[string]any{"got": got, "want": want.String()})
+			continue
+		}
+		im, _ := sim.DiskImage(ns.cn.DBDir(e.name), e.cfg.Layout.PageSize)
+		if ref != nil {
+			if ok, why := im.Equal(ref.(sim.Image), e.cfg.Layout.LockPgno()); !ok {
+				e.fail("C06", "C06.ends-identical-to-primary", "image-after-restart/"+name, map[string]any{"why": why})
+			}
+		}
+	}
 }
 
 func mustJSON(v any) string { b, _ := json.Marshal(v); return string(b) }
